@@ -447,11 +447,24 @@ func runExpiry(c Case) (res obs.Result) {
 	defer cancel()
 	resp := cli.Do(ctx, cli.B().Incr().Key(key).Build())
 	final := ro.ClassifyResult(resp)
+	// a slow first attempt may still be sleeping in the fake server when the call returns: wait until every
+	// arrival has been processed before counting executions
 	var arr []fs.Arrival
-	for _, a := range d.Arrivals() {
-		if strings.Join(a.Argv, " ") == strings.Join(argv, " ") {
-			arr = append(arr, a)
+	for wait := 0; wait < 1000; wait++ {
+		arr = arr[:0]
+		pending := false
+		for _, a := range d.Arrivals() {
+			if strings.Join(a.Argv, " ") == strings.Join(argv, " ") {
+				arr = append(arr, a)
+				if !a.Done {
+					pending = true
+				}
+			}
 		}
+		if !pending {
+			break
+		}
+		time.Sleep(10 * time.Millisecond)
 	}
 	execs := 0
 	ticks := make([]tick, len(arr))
